@@ -746,7 +746,11 @@ func (u *Upstream) resume(newConn *wire.ClientConn) error {
 		return resp.ResultCode != message.ResultCodeResumeRequestConflict
 	})
 	if resErr != nil {
-		u.closeWithError(u.ctx, resErr)
+		// bounded by the close timeout: a broker that refused the resume may not answer the close request either,
+		// and the stream must still be reported closed
+		cctx, ccancel := context.WithTimeout(u.ctx, u.closeTimeout)
+		u.closeWithError(cctx, resErr)
+		ccancel()
 		return errors.Errorf("failed send upstream resume request: %w", resErr)
 	}
 
